@@ -175,7 +175,7 @@ func offRun(in []byte) (interface{}, error) {
 			{Field: []byte(srcAddr + "-" + utils.CheckpointOffset), Value: []byte(strconv.FormatInt(o, 10))}}}})
 		tr.Emit(tracer.Ev{"e": "resume-from", "n": rel(o)})
 	}
-	node := &slot.SyncNode{Id: 0, Source: srcAddr, SourcePassword: "", Target: []string{tgtAddr}, TargetPassword: "tgt-SECRET-pw", SlotLeftBoundary: -1, SlotRightBoundary: -1}
+	node := &slot.SyncNode{Id: 0, Source: srcAddr, SourcePassword: "src-SECRET-pw", Target: []string{tgtAddr}, TargetPassword: "tgt-SECRET-pw", SlotLeftBoundary: -1, SlotRightBoundary: -1}
 	ds := dbSync.NewDbSyncer(node, 9320, semaphore.NewWeighted(2))
 	go func() { runAbortable(func() { ds.Sync() }) }()
 	// wait until the source has sent everything, then a quiet period covering >= 2 ACK ticks
